@@ -255,6 +255,8 @@ class Gen:
         for t in plan:
             if t == "P":
                 bases = [A] if self.f["inheritance"] and rnd.random() < 0.4 and "me" not in A.vis_refs() else []
+                # (a parameter named like a built-in is a listed defect of its own - the export leaves the name
+                # unqualified - and is exercised by the directed probe of K_PARAM only)
                 P = self.space("P", None, bases=bases, params=self.gen_params(["p", "q"]))
                 self.fill(P, TOP_POOL)
             elif t == "B":
